@@ -69,9 +69,19 @@ def runtime_warning(rng):
         lines2 = pre + ["SET(R13, 2)", "RETURN(R12, R13)", "HALT()"]
         open(p2, "w").write("\n".join(lines2) + "\n")
         exc2, out2, err2 = fc.run_main(argv[:-1] + [p2])
+        # the operation that makes the stack pointer enter the data segment is a CALL / RETURN whose first operand
+        # is SP (it exchanges SP with FP and jumps): the warning belongs to its line, not to where it jumps
+        # (seed C17g: the location was looked up through the program counter, which the jump had already moved)
+        p3 = os.path.join(d, "c.hera")
+        lines3 = pre + ["SET(FP, 0xD000)", "SET(R5, fn)", "  CALL(SP, R5)", "HALT()", "LABEL(fn)", "MOVE(R1, R2)", "HALT()"]
+        open(p3, "w").write("\n".join(lines3) + "\n")
+        exc3, out3, err3 = fc.run_main(argv[:-1] + [p3])
     finally:
         shutil.rmtree(d, ignore_errors=True)
     how = " ".join(argv[:-1])
+    stack3 = [l for l in err3.split("\n") if "stack has overflowed" in l]
+    if stack3 and "line %d " % (len(pre) + 3) not in stack3[0]:
+        return "hera %s: the stack warning raised by the CALL on line %d says: %r" % (how, len(pre) + 3, stack3[0][:200])
     if "stack has overflowed" not in err:
         return "hera %s: no stack warning at all: %r" % (how, err[:200])
     if "line %d " % want not in err:
